@@ -51,13 +51,13 @@ VARIABLES cfg,
           aU, aL,    \* ip -> t1 of asynchronous unban / un-blacklist runs
           blo, wlst, \* ip -> per entry form ("ip" exact address, "net" range containing it): the operator's
                      \*       latest blacklist order [k, from, to, born, end]; whitelisted through that form?
-          lastReload,\* t1 of the last Reload (a fresh IPManager over the same storage), -1: none
+          lastReload,\* trace line of the last Reload (a fresh IPManager over the same storage), -1: none
           adm,       \* ip -> admitted anonymous registrations [t0, t1]
           refs       \* ip -> answers "banned" [t0, t1], justified at End
 vars == <<l, viol, cfg, fs, sf, lastSucc, lastMU, lastClean, ob, aU, aL, blo, wlst, lastReload, adm, refs>>
 
 NoCfg == [thr |-> 0]
-NoBl == [k |-> "none", from |-> 0, to |-> 0, born |-> 0, end |-> 0]
+NoBl == [k |-> "none", from |-> 0, to |-> 0, born |-> 0, end |-> 0, line |-> 0]
 FORMS == {"ip", "net"}       \* "other" = an entry that does not cover the address: no demand follows from it
 NoBls == [f \in FORMS |-> NoBl]
 NoWls == [f \in FORMS |-> FALSE]
@@ -97,13 +97,13 @@ NotBanned(i, q) ==
 
 \* ---- blacklist clause ------------------------------------------------------------------------
 \* history shape of a blacklist violation: the lazy removal ran after the order ("lateUnbl"); the
-\* manager was re-created from storage after the order ("afterReload"); an order for the other
-\* entry form has run out by now ("shadowed": its expired entry is found first); none ("plain")
+\* order for the other entry form has run out by now ("shadowed": its expired entry is found first);
+\* the manager was re-created from storage after the order was given ("afterReload"); none ("plain")
 BlCause(i, f, b, q) ==
   LET o == blo[i][IF f = "ip" THEN "net" ELSE "ip"] IN
   IF \E x \in 1..Len(aL[i]) : aL[i][x] + cfg.aTol >= b.born THEN "lateUnbl"
-  ELSE IF lastReload >= b.born THEN "afterReload"
   ELSE IF o.k = "temp" /\ q.t1 >= o.end THEN "shadowed"
+  ELSE IF lastReload > b.line THEN "afterReload"
   ELSE "plain"
 Whitelisted(i) == \E f \in FORMS : wlst[i][f]
 NotBlacklisted(i, q) ==
@@ -191,7 +191,7 @@ TrBlk == /\ Is("Blk")
          /\ blo' = IF Ev.form \in FORMS
                    THEN Up(blo, Ev.ip, [blo[Ev.ip] EXCEPT ![Ev.form] =
                               [k |-> IF Ev.perm THEN "perm" ELSE "temp", from |-> Ev.t1 + cfg.mS,
-                               to |-> Ev.t0 + cfg.bld - cfg.mE, born |-> Ev.t1, end |-> Ev.t1 + cfg.bld]])
+                               to |-> Ev.t0 + cfg.bld - cfg.mE, born |-> Ev.t1, end |-> Ev.t1 + cfg.bld, line |-> l]])
                    ELSE blo
          /\ l' = l + 1 /\ UNCHANGED <<viol, cfg, fs, sf, lastSucc, lastMU, lastClean, ob, aU, aL, wlst, lastReload, adm, refs>>
 
@@ -212,7 +212,7 @@ TrWl == /\ Is("Wl")
         /\ l' = l + 1 /\ UNCHANGED <<viol, cfg, fs, sf, lastSucc, lastMU, lastClean, ob, aU, aL, lastReload, adm, refs>>
 
 \* the demands outlive the manager instance: nothing changes but the history shape
-TrReload == /\ Is("Reload") /\ lastReload' = Ev.t1
+TrReload == /\ Is("Reload") /\ lastReload' = l
             /\ l' = l + 1 /\ UNCHANGED <<viol, cfg, fs, sf, lastSucc, lastMU, lastClean, ob, aU, aL, blo, wlst, adm, refs>>
 
 \* a clean-up run of the protector drops a failure record whose window is empty - and with it the
